@@ -882,19 +882,19 @@ class NumpyModel(object):
         nz = self.dim_z(n) if not isinstance(n, SV) else n.z
         if not isinstance(n, int):
             f = self.named_fn(f)
+        # the bounds check is deferred (check_adv): NumPy checks the entries of an index array only if the broadcast of all
+        # index arrays of the key is not empty -- a[[5], []] is an empty selection, not an error
         if isinstance(n, int):
-            for k in range(n):
-                e = f(z3.IntVal(k))
-                if not I.ctx.branch(z3.And(-dz <= e, e < dz), safety=False):
-                    raise_py('IndexError', 'index out of bounds for axis %d' % ax)
+            bads = [z3.Not(z3.And(-dz <= f(z3.IntVal(k)), f(z3.IntVal(k)) < dz)) for k in range(n)]
+            bad = z3.Or(*bads) if bads else z3.BoolVal(False)
         else:
             k = I.ctx.fresh_int('ia_k')
             bad = z3.Exists([k], z3.And(0 <= k, k < nz, z3.Not(z3.And(-dz <= f(k), f(k) < dz))), patterns=[f(k)])
-            if I.ctx.branch(bad, safety=True):
-                raise_py('IndexError', 'index out of bounds for axis %d' % ax)
         s_ = Sel('map', n=self.norm_dim(n) if not isinstance(n, int) else n,
                  fn=lambda r, f=f, dz=dz: z3.If(f(r) < 0, f(r) + dz, f(r)), adv=True)
         s_.raw = f
+        s_.bad = bad
+        s_.bad_axis = ax
         return s_
 
     def seq_sel(self, p, dim, ax):
@@ -977,18 +977,55 @@ class NumpyModel(object):
             return Opaque('gridcell', (arr, key.items[0], key.items[1]))
         raise Unsupported('object-array key')
 
+    def check_adv(self, sels):
+        """index arrays of one key broadcast together (a length-1 array is stretched); their entries are range-checked only when
+        the broadcast is not empty"""
+        from .interp import raise_py
+        I = self.I
+        advs = [s for s in sels if s.kind == 'map' and s.adv]
+        if not advs:
+            return
+        L = advs[0].n
+        group = [advs[0]]
+        for s in advs[1:]:
+            if zeq(L, s.n) or I.ctx.branch(self.dim_z(L) == self.dim_z(s.n)):
+                group.append(s)
+                continue
+            if I.ctx.branch(self.dim_z(s.n) == 1):
+                f0 = s.fn
+                s.n_orig = s.n
+                s.fn = lambda r, f0=f0: f0(z3.IntVal(0))
+                s.n = L
+                group.append(s)
+                continue
+            if I.ctx.branch(self.dim_z(L) == 1):
+                for g_ in group:
+                    f0 = g_.fn
+                    g_.n_orig = getattr(g_, 'n_orig', g_.n)
+                    g_.fn = lambda r, f0=f0: f0(z3.IntVal(0))
+                    g_.n = s.n
+                L = s.n
+                group.append(s)
+                continue
+            raise_py('IndexError', 'shape mismatch: indexing arrays could not be broadcast together')
+        Lz = self.dim_z(L)
+        for s in advs:
+            bad = getattr(s, 'bad', None)
+            if bad is None or z3.is_false(z3.simplify(bad)):
+                continue
+            if I.ctx.branch(z3.And(Lz > 0, bad), safety=True):
+                raise_py('IndexError', 'index out of bounds for axis %d' % getattr(s, 'bad_axis', 0))
+
     def apply_sels(self, arr, sels):
         advs = [s for s in sels if s.kind == 'map' and s.adv]
         if any(s.kind == 'new' for s in sels) and advs:
             raise Unsupported('newaxis combined with advanced indexing')
-        if len(advs) > 1:
-            # several advanced indices broadcast together (pairs); only equal lengths
-            n0 = advs[0].n
-            for s in advs[1:]:
-                if not zeq(n0, s.n):
-                    if not self.I.ctx.branch(self.dim_z(n0) == self.dim_z(s.n)):
-                        from .interp import raise_py
-                        raise_py('IndexError', 'shape mismatch: indexing arrays could not be broadcast together')
+        self.check_adv(sels)
+        if False:
+            if True:
+                if True:
+                    if True:
+                        pass
         out_shape = []
         plan = []      # per source axis: ('fix', idx) | ('res', result axis position)
         adv_pos = None
@@ -1078,6 +1115,7 @@ class NumpyModel(object):
         sels = self.parse_key(arr, key)
         if any(s.kind == 'new' for s in sels):
             raise Unsupported('newaxis in an assignment target')
+        self.check_adv(sels)
         # selected(target idx) and the result position it comes from
         V = self.as_array(val)
         Vfn = V.fn            # the value is read now
